@@ -473,6 +473,8 @@ void rcu_defer_unregister_thread(void)
 	_rcu_defer_barrier_thread();
 	free(URCU_TLS(defer_queue).q);
 	URCU_TLS(defer_queue).q = NULL;
+	/* A later rcu_defer_register_thread() expects a pristine last_head. */
+	URCU_TLS(defer_queue).last_head = 0;
 	is_empty = cds_list_empty(&registry_defer);
 	mutex_unlock(&rcu_defer_mutex);
 
